@@ -358,6 +358,10 @@ def export(run, name, tn, td, mode, maxedits, nrandom, maxperturb=0, simulate=No
         if o.pop("primary_ok", 1) == 0:
             continue            # a Primary tag used inconsistently (PretextView!PrimaryOK): outside the tagged maps the properties speak about
         objs.append(o)
+    if simulate:
+        # TLC's simulation mode reports no state counts: the distinct maps it printed / the states it printed are what was explored
+        r["distinct"] = max(r.get("distinct") or 0, len(seen))
+        r["generated"] = max(r.get("generated") or 0, len(C.emitted(r["out"])))
     if cap and len(objs) > cap:
         # maps in Primary mode are few among the tagged ones: up to a third of the sample is reserved for them
         prim = [o for o in objs if any("Primary" in p.get("tags", ()) for g in o["map"] for p in g["pieces"])]
